@@ -1,1 +1,3 @@
 //! Reference models, written from the property text / Quil specification.
+
+pub mod eval;
